@@ -1436,6 +1436,19 @@ def deco(dt, unit='', fmt='%g', dflt=True):
     return dt
 
 
+def has_blob0(dt):
+    k = dt['k']
+    if k == 'blob':
+        return dt['maxb'] == 0
+    if k == 'array':
+        return has_blob0(dt['el'])
+    if k == 'tuple':
+        return any(has_blob0(e) for e in dt['els'])
+    if k == 'struct':
+        return any(has_blob0(m['t']) for m in dt['mem'])
+    return False
+
+
 def has_limit(dt):
     k = dt['k']
     if k == 'tuple':
